@@ -380,6 +380,14 @@ func S2c(tier string, rate string, period uint32) *Scenario {
 			al.BlockStops = []int{2, 3, 4, 5, 6}
 		}
 	}
+	if period == 1 {
+		// governance changes the extension period between rounds (1 -> 2 days)
+		al.ParamUpdates = []Op{{Kind: "update_params", Authority: "gov", ExtPeriod: 2}}
+		bud["params"] = 1
+		bud["update"] = 0
+		bud["mod"] = 0
+		al.BlockStops = []int{2, 3, 4, 5, 6}
+	}
 	return scenFrom(fmt.Sprintf("S2c-extension-rate%s-period%d", rate, period), cfg, pre, bud, al, nil)
 }
 
@@ -487,7 +495,9 @@ func S2e(tier string) *Scenario {
 		ModPrices: []string{"3"},
 		MaxK:      7, BlockStops: []int{2, 3, 4, 5, 6, 7},
 	}
-	bud := Budget{"update": 1, "bid": 3, "mod": 1, "block": 5}
+	// governance may set the extension period to 0 (a valid value that a genesis file can carry)
+	al.ParamUpdates = []Op{{Kind: "update_params", Authority: "gov", ExtPeriod: 0}}
+	bud := Budget{"update": 1, "bid": 3, "mod": 1, "block": 5, "params": 1}
 	return scenFrom("S2e-batch-early-release", cfg, pre, bud, al, nil)
 }
 
@@ -606,7 +616,8 @@ func S3e(tier string) *Scenario {
 	cfg := world.Config{Balances: stdBalances(), Params: params("", "", 1)}
 	pre := []Op{
 		{Kind: "create_fixed", Signer: "auc1", StartPrice: "1", Sell: "10acoin", PayDenom: "bcoin", StartK: 0, EndK: 6},
-		{Kind: "create_batch", Signer: "auc2", StartPrice: "1", MinPrice: "0.5", Sell: "4acoin", PayDenom: "bcoin", StartK: 0, EndK: 2, MaxExt: 2, Rate: "0.25"},
+		// first release at 3: after the first end time (2) but not after the extended ones (3, 4)
+		{Kind: "create_batch", Signer: "auc2", StartPrice: "1", MinPrice: "0.5", Sell: "4acoin", PayDenom: "bcoin", StartK: 0, EndK: 2, MaxExt: 2, Rate: "0.25", Sched: sched(3, 7)},
 		{Kind: "add_allowed", AID: 0, Bidder: "bid1", Max: "3"},
 		{Kind: "add_allowed", AID: 1, Bidder: "bid1", Max: "4"},
 		{Kind: "add_allowed", AID: 1, Bidder: "bid2", Max: "4"},
@@ -615,11 +626,11 @@ func S3e(tier string) *Scenario {
 		Bidders: []string{"bid1", "bid2"}, AllowBidders: []string{"bid1"},
 		FixedAmts:   []string{"1", "2"},
 		BatchPrices: []string{"1", "2"}, ManyAmts: []string{"1"},
-		MaxK: 6, BlockStops: []int{2, 3, 4, 5},
+		MaxK: 8, BlockStops: []int{2, 3, 4, 5, 7},
 	}
-	bud := Budget{"bid": 4, "block": 4}
+	bud := Budget{"bid": 4, "block": 5}
 	if tier == "thorough" {
-		bud = Budget{"bid": 5, "block": 4, "tick": 1}
+		bud = Budget{"bid": 5, "block": 5, "tick": 1}
 	}
 	return scenFrom("S3e-fixed-then-batch-extended", cfg, pre, bud, al, nil)
 }
